@@ -70,6 +70,8 @@ pub(crate) fn start_async_stdwriter(
                     match receiver.recv() {
                         Err(_) => break,
                         Ok(mut message) => {
+                            #[cfg(feature = "verif_hooks")]
+                            crate::verif_hooks::sched("async_std_recv");
                             match message.as_ref() {
                                 ASYNC_FLUSH => {
                                     std_stream
